@@ -56,7 +56,7 @@ func runC01(r *core.Run) (bool, string) {
 	c01Matrix(r, goose)
 	c01Statements(r, goose)
 	rng := core.NewRng(r.Seed, "c01-random")
-	nb := r.Pick(3, 240)
+	nb := r.Pick(3, 600)
 	perBatch := r.Pick(14, 40)
 	type job struct {
 		idx  int
